@@ -8,107 +8,174 @@ Lemma be32_at_ok s a : (a + 4 <= cap s)%nat ->
   be32_at s a = Ok (be32 (nth a (arr s) 0) (nth (a + 1) (arr s) 0) (nth (a + 2) (arr s) 0) (nth (a + 3) (arr s) 0)).
 Proof. intros H. unfold be32_at. destruct (Nat.leb_spec (a + 4) (cap s)); [reflexivity|lia]. Qed.
 
-Theorem arp_process_total p : wf p -> safe (arp_process p).
+Lemma when_safe b r : safe r -> safe (when b r).
+Proof. intros H. destruct b; [exact H|sdone]. Qed.
+
+Ltac acc28 Hw :=
+  repeat (first [ rewrite sl_ok by (unfold wf in Hw; lia) | rewrite be16_at_ok by (unfold wf in Hw; lia)
+                | rewrite idx_ok by lia ]; cbn [bind]).
+
+Lemma arp_fastlog_safe p : wf p -> (28 <= len p)%nat -> safe (arp_fastlog p).
+Proof. intros Hw H. unfold arp_fastlog. acc28 Hw. sdone. Qed.
+
+Theorem arp_process_total e router lan p : wf p -> safe (arp_process e router lan p).
 Proof.
   intros Hw. unfold arp_process. destruct (Nat.ltb_spec (len p) 28); [sdone|].
-  unfold wf in Hw.
-  rewrite be16_at_ok by lia. cbn [bind]. sif; [sdone|].
-  rewrite be16_at_ok by lia. cbn [bind]. sif; [sdone|].
-  rewrite idx_ok by lia. cbn [bind]. sif; [sdone|].
-  rewrite idx_ok by lia. cbn [bind]. sif; [sdone|].
-  repeat (first [rewrite sl_ok by lia | rewrite be16_at_ok by lia]; cbn [bind]). sdone.
+  pose proof (arp_fastlog_safe p Hw H) as Hlog.
+  unfold ip4_at. acc28 Hw. sif; [sdone|]. acc28 Hw. sif; [sdone|]. acc28 Hw. sif; [sdone|].
+  acc28 Hw. sif; [sdone|]. sif; [sdone|].
+  acc28 Hw.
+  sif; [apply when_safe; exact Hlog|].
+  sif; [apply when_safe; exact Hlog|].
+  sif; [|exact Hlog].
+  sif; [apply when_safe; exact Hlog|].
+  sif.
+  - apply safe_bind; [apply when_safe; exact Hlog|]. intros _ _. acc28 Hw. sif; acc28 Hw; sdone.
+  - apply safe_bind; [apply when_safe; exact Hlog|]. intros _ _. acc28 Hw. sif; acc28 Hw; sdone.
 Qed.
 
-Theorem dhcp4_process_total p : wf p -> forall fuel, (len p < fuel)%nat -> safe (dhcp4_process fuel p).
+(* ---------------------------------------------------------------- DHCPv4 *)
+Lemma dhcp_is_valid_len fuel p : dhcp_is_valid fuel p = Ok tt -> (240 <= len p)%nat.
 Proof.
-  intros Hw fuel Hf. unfold dhcp4_process. apply safe_bind.
-  - apply dhcp_is_valid_total; assumption.
-  - intros _ _. apply dhcp_parse_options_total; assumption.
+  unfold dhcp_is_valid. destruct (Nat.ltb_spec (len p) 240); [discriminate|]. intros _. assumption.
 Qed.
+
+Lemma encode_dhcp4_into_safe p pos :
+  (Nat.leb 300 (cap p) && Nat.leb (cap p) (240 + pos)) = false -> safe (encode_dhcp4_into p pos).
+Proof.
+  intros H. unfold encode_dhcp4_into.
+  destruct (Nat.ltb_spec (cap p) 300); [sdone|].
+  destruct (Nat.ltb_spec (240 + pos) (cap p)); [sdone|]. lia.
+Qed.
+
+Theorem dhcp4_process_partial e p : wf p -> known_C08_dhcp_reply_overrun e p = false ->
+  forall fuel, (len p < fuel)%nat -> safe (dhcp4_process fuel e p).
+Proof.
+  intros Hw Hk fuel Hf. unfold dhcp4_process.
+  destruct (dhcp_is_valid fuel p) as [[]|er| |] eqn:Ev; cbn [bind];
+    try sdone; try (pose proof (dhcp_is_valid_total p Hw fuel Hf) as [H1 H2]; congruence).
+  pose proof (dhcp_is_valid_len _ _ Ev) as Hl.
+  destruct (de_client_port e); cbn [bind].
+  - apply safe_bind; [apply dhcp_parse_options_total; assumption|]. intros _ _.
+    destruct (dhcp_opt p 53) as [[|mt [|x r]]|]; try sdone.
+    unfold client_id. destruct (dhcp_opt p 61); cbn [bind]; acc28 Hw;
+      (destruct (dhcp_opt p 54); [|sdone]; sif; [sdone|]; acc28 Hw; sdone).
+  - apply safe_bind; [apply dhcp_parse_options_total; assumption|]. intros _ _.
+    destruct (dhcp_opt p 53) as [[|mt [|x r]]|]; try sdone.
+    sif; [sdone|].
+    unfold known_C08_dhcp_reply_overrun, dhcp_reply_pos in Hk.
+    unfold client_id in *. destruct (dhcp_opt p 61) as [cid|]; cbn [bind] in *.
+    + acc28 Hw. sif; [|sdone].
+      destruct (de_reply e); [sdone| |]; apply encode_dhcp4_into_safe; exact Hk.
+    + rewrite sl_ok in * by (unfold wf in Hw; lia). cbn [bind] in *. acc28 Hw. sif; [|sdone].
+      destruct (de_reply e); [sdone| |]; apply encode_dhcp4_into_safe; exact Hk.
+Qed.
+
+(* REQUEST (rebooting) with a 60-byte client identifier in a buffer of exactly its length:
+   the NAK needs 240+3+6+62+1 = 312 bytes, the request buffer has 311 *)
+Definition dhcp_nak_w : bytes :=
+  [1; 1; 6; 0] ++ repeat 0 232 ++ [99; 130; 83; 99] ++ [53; 1; 3] ++ [50; 4; 192; 168; 0; 77] ++ (61 :: 60 :: repeat 7 60).
+Lemma dhcp4_refuted :
+  bytes_ok dhcp_nak_w /\
+  known_C08_dhcp_reply_overrun (mkDhcpEnv false RNak false) (of_bytes dhcp_nak_w) = true /\
+  dhcp4_process 400 (mkDhcpEnv false RNak false) (of_bytes dhcp_nak_w) = Panic.
+Proof. split; [apply bytes_okb_spec; vm_compute; reflexivity|]. split; vm_compute; reflexivity. Qed.
+Lemma dhcp4_nonvacuous :
+  known_C08_dhcp_reply_overrun (mkDhcpEnv false (ROther 33) true) (of_bytes (dhcp_sample ++ repeat 0 60)) = false /\
+  dhcp4_process 400 (mkDhcpEnv false (ROther 33) true) (of_bytes (dhcp_sample ++ repeat 0 60)) = Ok tt.
+Proof. split; vm_compute; reflexivity. Qed.
 
 (* ---------------------------------------------------------------- ICMPv4 logger *)
-Theorem icmp4_process_classified p : wf p ->
-  if known_C08_icmp4_inner p then icmp4_process p = Panic else safe (icmp4_process p).
+Lemma echo_fastlog_safe p : wf p -> (8 <= len p)%nat -> safe (echo_fastlog p).
 Proof.
-  intros Hw. unfold known_C08_icmp4_inner, icmp4_process.
-  destruct (Nat.ltb_spec (len p) 8) as [H8|H8].
-  { destruct (Nat.leb_spec 28 (len p)); [lia|]. cbn [andb]. sdone. }
+  intros Hw H. unfold echo_fastlog.
+  repeat (first [rewrite be16_at_ok by (unfold wf in Hw; lia) | rewrite slfrom_ok by lia]; cbn [bind]). sdone.
+Qed.
+
+Theorem icmp4_process_total info p : wf p -> safe (icmp4_process info p).
+Proof.
+  intros Hw. unfold icmp4_process.
+  destruct (Nat.ltb_spec (len p) 8) as [H8|H8]; [sdone|].
   rewrite idx_ok by lia. cbn [bind].
-  destruct (nth 0 (arr p) 0 =? 3) eqn:Et; [|rewrite andb_false_r; cbn [andb]; sdone].
+  destruct ((nth 0 (arr p) 0 =? 0) || (nth 0 (arr p) 0 =? 8)).
+  { apply when_safe, echo_fastlog_safe; assumption. }
+  destruct (nth 0 (arr p) 0 =? 3); [|sdone].
   rewrite idx_ok by lia. cbn [bind].
-  destruct (Nat.ltb_spec (len p) 28) as [H28|H28].
-  { destruct (Nat.leb_spec 28 (len p)); [lia|]. cbn [andb]. sdone. }
-  destruct (Nat.leb_spec 28 (len p)); [|lia]. cbn [andb].
+  destruct (Nat.ltb_spec (len p) 28) as [H28|H28]; [sdone|].
   rewrite slfrom_ok by lia. cbn [bind].
   set (ip := mkSlice (skipn 8 (arr p)) (len p - 8)).
   assert (Hwi : wf ip) by (unfold ip; slen).
   assert (Hli : len ip = (len p - 8)%nat) by reflexivity.
   assert (Hci : (len ip <= cap ip)%nat) by exact Hwi.
-  assert (Hn : forall k, nth k (arr ip) 0 = nth (8 + k) (arr p) 0).
-  { intros k. unfold ip; cbn [arr]. apply nth_skipn_add. }
   unfold ip4_is_valid, ip4_payload, ip4_ihl, ip4_totallen.
   destruct (Nat.ltb_spec (len ip) 20); [lia|].
   rewrite !idx_ok by lia. cbn [bind].
   rewrite !be16_at_ok by lia. cbn [bind].
-  rewrite !Hn. cbn [Nat.add].
-  set (ihl := (N.to_nat (N.land (nth 8 (arr p) 0%N) 15%N) * 4)%nat).
-  set (tl := N.to_nat (be16 (nth 10 (arr p) 0) (nth 11 (arr p) 0))).
-  rewrite Hli in *.
-  destruct (Nat.ltb_spec (len p - 8) ihl) as [Hi|Hi].
-  { cbn [bind negb]. destruct (Nat.leb_spec ihl (len p - 8)); [lia|]. cbn [andb]. sdone. }
-  destruct (Nat.leb_spec ihl (len p - 8)); [|lia]. cbn [bind andb].
-  destruct (Nat.ltb_spec (len p - 8) tl) as [Ht|Ht].
-  { cbn [negb]. destruct (Nat.leb_spec tl (len p - 8)); [lia|]. cbn [andb]. sdone. }
-  destruct (Nat.leb_spec tl (len p - 8)); [|lia]. cbn [negb andb].
-  destruct (Nat.ltb_spec tl ihl) as [Hlt|Hge]; cbn [andb].
-  - (* TotalLen < IHL *)
-    destruct (nth 17 (arr p) 0 =? 17) eqn:E17; cbn [orb].
-    + rewrite sl_panic by lia. reflexivity.
-    + destruct (nth 17 (arr p) 0 =? 6) eqn:E6.
-      * rewrite sl_panic by lia. reflexivity.
-      * sdone.
-  - destruct (nth 17 (arr p) 0 =? 17).
+  set (ihl := (N.to_nat (N.land (nth 0 (arr ip) 0%N) 15%N) * 4)%nat).
+  set (tl := N.to_nat (be16 (nth 2 (arr ip) 0) (nth (2 + 1) (arr ip) 0))).
+  destruct (Nat.ltb_spec ihl 20); [cbn [bind negb]; sdone|].
+  destruct (Nat.ltb_spec (len ip) ihl); [cbn [bind negb]; sdone|]. cbn [bind].
+  destruct (Nat.ltb_spec tl ihl); [cbn [bind negb]; sdone|].
+  destruct (Nat.ltb_spec (len ip) tl); cbn [bind negb]; [sdone|].
+  apply safe_bind.
+  - destruct (nth 9 (arr ip) 0 =? 17).
     + rewrite sl_ok by lia. cbn [bind len].
       destruct (Nat.ltb_spec (tl - ihl) 8); [sdone|].
       rewrite be16_at_ok by (unfold cap in *; cbn [arr]; rewrite skipn_length; lia). cbn [bind]. sdone.
-    + destruct (nth 17 (arr p) 0 =? 6); [|sdone].
+    + destruct (nth 9 (arr ip) 0 =? 6); [|sdone].
       rewrite sl_ok by lia. cbn [bind len].
       destruct (Nat.ltb_spec (tl - ihl) 20); [sdone|].
+      rewrite idx_ok by (cbn [len]; lia). cbn [bind]. sif; [sdone|].
       rewrite be16_at_ok by (unfold cap in *; cbn [arr]; rewrite skipn_length; lia). cbn [bind]. sdone.
+  - intros _ _. apply when_safe. rewrite sl_ok by lia. cbn [bind]. sdone.
 Qed.
 
-(* destination unreachable with an embedded header IHL=5, TotalLen=0, protocol UDP *)
+(* the former #3 witness (embedded header IHL=5, TotalLen=0, UDP) is now an error *)
 Definition icmp4_w : bytes := [3; 3; 0; 0; 0; 0; 0; 0; 69; 0; 0; 0; 0; 0; 0; 0; 64; 17; 0; 0; 192; 168; 0; 129; 8; 8; 8; 8].
 Definition icmp4_good : bytes :=
   [3; 3; 0; 0; 0; 0; 0; 0; 69; 0; 0; 28; 0; 0; 0; 0; 64; 17; 0; 0; 192; 168; 0; 129; 8; 8; 8; 8; 19; 136; 0; 53; 0; 8; 0; 0].
-Lemma icmp4_refuted :
-  bytes_ok icmp4_w /\ known_C08_icmp4_inner (of_bytes icmp4_w) = true /\ icmp4_process (of_bytes icmp4_w) = Panic.
-Proof. split; [apply bytes_okb_spec; reflexivity|]. split; vm_compute; reflexivity. Qed.
 Lemma icmp4_nonvacuous :
-  known_C08_icmp4_inner (of_bytes icmp4_good) = false /\ icmp4_process (of_bytes icmp4_good) = Ok tt.
-Proof. split; vm_compute; reflexivity. Qed.
+  bytes_ok icmp4_w /\ icmp4_process true (of_bytes icmp4_w) = Err EParseFrame /\
+  icmp4_process true (of_bytes icmp4_good) = Ok tt.
+Proof. split; [apply bytes_okb_spec; reflexivity|]. split; vm_compute; reflexivity. Qed.
 
 (* ---------------------------------------------------------------- ICMPv6 *)
-Theorem icmp6_process_total lbl_ok p ra_processed : wf p ->
-  forall fuel, (len p < fuel)%nat -> safe (icmp6_process lbl_ok fuel ra_processed p).
+Lemma lla_option_at_safe p off ty : wf p -> safe (lla_option_at p off ty).
+Proof.
+  intros Hw. unfold lla_option_at. destruct (Nat.ltb_spec (len p) (off + 8)); [sdone|].
+  rewrite !idx_ok by lia. cbn [bind]. sif; [sdone|].
+  rewrite sl_ok by (unfold wf in Hw; lia). cbn [bind]. sdone.
+Qed.
+
+Theorem icmp6_process_total lbl_ok p e : wf p ->
+  forall fuel, (len p < fuel)%nat -> safe (icmp6_process lbl_ok fuel e p).
 Proof.
   intros Hw fuel Hf. unfold icmp6_process.
   destruct (Nat.ltb_spec (len p) 8); [sdone|].
-  rewrite idx_ok by lia. cbn [bind]. unfold wf in Hw.
+  rewrite idx_ok by lia. cbn [bind].
+  pose proof (fun off ty => lla_option_at_safe p off ty Hw) as Hlla.
   destruct (nth 0 (arr p) 0 =? 136).
   { destruct (Nat.ltb_spec (len p) 24); [sdone|].
-    rewrite idx_ok by lia. cbn [bind]. sif; [|sdone].
-    destruct (Nat.ltb_spec (len p) 32); [sdone|].
-    rewrite !idx_ok by lia. cbn [bind]. sif; [sdone|].
-    rewrite sl_ok by lia. cbn [bind]. sdone. }
+    apply safe_bind.
+    { apply when_safe. acc28 Hw. apply Hlla. }
+    intros _ _. acc28 Hw. sif; [|sdone].
+    apply safe_bind; [apply when_safe; acc28 Hw; apply Hlla|]. intros _ _.
+    destruct (Nat.ltb_spec (len p) 32); [sdone|]. acc28 Hw. sif; [sdone|]. acc28 Hw. sdone. }
   destruct (nth 0 (arr p) 0 =? 135).
-  { destruct (Nat.ltb_spec (len p) 24); [sdone|]. rewrite sl_ok by lia. cbn [bind]. sdone. }
-  destruct (nth 0 (arr p) 0 =? 134) eqn:E134.
+  { destruct (Nat.ltb_spec (len p) 24); [sdone|].
+    apply safe_bind; [apply when_safe; acc28 Hw; apply Hlla|]. intros _ _.
+    sif; [apply when_safe; acc28 Hw; sdone|]. acc28 Hw. sif; acc28 Hw; sdone. }
+  destruct (nth 0 (arr p) 0 =? 134).
   { destruct (Nat.ltb_spec (len p) 16); [sdone|].
-    destruct ra_processed; cbn [negb]; [|sdone].
+    sif; [sdone|].
     apply safe_bind; [apply ra_options_total; [exact Hw|exact Hf]|].
-    intros _ _.
-    rewrite !idx_ok by lia. cbn [bind]. rewrite be16_at_ok by lia. cbn [bind].
-    rewrite !be32_at_ok by lia. cbn [bind]. sdone. }
-  repeat (sif; try sdone).
+    intros _ _. acc28 Hw. rewrite !be32_at_ok by (unfold wf in Hw; lia). cbn [bind]. sdone. }
+  destruct (nth 0 (arr p) 0 =? 133).
+  { apply when_safe. acc28 Hw. destruct (Nat.ltb_spec (len p) 16); [sdone|]. acc28 Hw. sif; acc28 Hw; sdone. }
+  destruct (nth 0 (arr p) 0 =? 129); [apply when_safe, echo_fastlog_safe; assumption|].
+  destruct (nth 0 (arr p) 0 =? 128); [apply when_safe, echo_fastlog_safe; assumption|].
+  destruct (nth 0 (arr p) 0 =? 137).
+  { destruct (Nat.ltb_spec (len p) 40); [sdone|]. apply when_safe. acc28 Hw.
+    apply safe_bind; [apply Hlla|]. intros _ _. acc28 Hw. sdone. }
+  sif; sdone.
 Qed.
